@@ -7,12 +7,14 @@ CONSTANTS
   GenBias = FALSE
   FixRenew = TRUE
   PlanIdx = {"p1", "p2"}
-  Buyers = {"c", "b"}
   Durs = {1, 2, 12}
   WithRelay = FALSE
+  Consumers = {"c1"}
+  ThirdParty = {"b"}
+  WithDrain = FALSE
   PriceVar = {0, 1}
 INIT Init
 NEXT Next
-INVARIANTS TypeOK PlanAvailable NoPanic CuBounded LeftPositive
+INVARIANTS TypeOK PlanAvailable NoPanic CuBounded LeftPositive RefsCoverHolders HeldVersionsExist
 CHECK_DEADLOCK FALSE
 VIEW NoHistView
